@@ -127,6 +127,10 @@ type faultState struct {
 	commits int
 	failAt  int
 	killAt  int
+	// failStmt: the fault is delivered at the first write statement inside the failAt-th write
+	// transaction (the statement returns an error, the transaction is still open) instead of at its commit
+	failStmt bool
+	fired    bool
 	// storage-operation boundaries: one per statement execution and per commit
 	ops       int
 	intrudeAt int
@@ -190,10 +194,15 @@ func isWrite(q string) bool {
 // autocommit: a write statement executed outside a transaction is its own committed write
 func (c *wconn) autocommit(query string, run func() (driver.Result, error)) (driver.Result, error) {
 	c.fs.op()
+	if c.fs != nil && c.inTx && !quiet && isWrite(query) && c.fs.failStmt && c.fs.failAt > 0 && c.fs.commits+1 == c.fs.failAt {
+		c.fs.failAt, c.fs.fired = 0, true
+		return nil, errFault
+	}
 	w := c.fs != nil && !c.inTx && !quiet && isWrite(query)
 	if w {
 		c.fs.commits++
 		if c.fs.failAt > 0 && c.fs.commits == c.fs.failAt {
+			c.fs.fired = true
 			return nil, errFault
 		}
 	}
@@ -277,6 +286,7 @@ func (t *wtx) Commit() error {
 	t.fs.op()
 	t.fs.commits++
 	if t.fs.failAt > 0 && t.fs.commits == t.fs.failAt {
+		t.fs.fired = true
 		_ = t.Tx.Rollback()
 		return errFault
 	}
@@ -308,6 +318,16 @@ func FailCommit(db *sqlx.DB, n int) {
 	fs.failAt = fs.commits + n
 }
 
+// FailStatement makes the first write statement inside the n-th write transaction from now fail
+// (the statement returns an error while the transaction is open; a write outside a transaction fails as a whole).
+func FailStatement(db *sqlx.DB, n int) {
+	fs := faults[fileOf[db]]
+	fs.failAt, fs.failStmt, fs.fired = fs.commits+n, true, false
+}
+
+// FaultFired reports whether the injected failure was delivered.
+func FaultFired(db *sqlx.DB) bool { return faults[fileOf[db]].fired }
+
 // KillAfterCommit stops the process right after the n-th commit from now (see RunUntilKill).
 func KillAfterCommit(db *sqlx.DB, n int) {
 	fs := faults[fileOf[db]]
@@ -333,7 +353,7 @@ func RunUntilKill(f func()) (killed bool) {
 func Reopen(db *sqlx.DB) *sqlx.DB {
 	name := fileOf[db]
 	fs := faults[name]
-	fs.failAt, fs.killAt = 0, 0
+	fs.failAt, fs.killAt, fs.failStmt = 0, 0, false
 	return open(name)
 }
 
